@@ -60,7 +60,7 @@ type Shape struct {
 	NAnon  int  // number of function literals inside
 }
 
-const NumKinds = 14
+const NumKinds = 16
 
 // NewShape draws a shape.
 func NewShape(r *Rand, kind int) Shape {
@@ -283,6 +283,40 @@ func (s Shape) Render(name, recv string) string {
 	return xs[:%s+1]
 }
 `, head, v[0], v[1], v[0], v[1], v[0], v[1], v[1], p[0], v[0], v[0], v[1], v[0])
+	case 14: // chained pure builtin calls across loop blocks (len -> min/max), hoisting candidates
+		return fmt.Sprintf(`%s(xs []int, k int) int {
+	%s := 0
+	for %s := 0; %s < k; %s++ {
+		%s := len(xs)
+		if %s%%2 == 0 {
+			%s := min(%s, k)
+			%s += %s
+		} else {
+			%s += max(%s, %d)
+		}
+		%s += cap(xs)
+	}
+	return %s
+}
+`, head, v[0], v[1], v[1], v[1], v[2], v[1], v[3], v[2], v[0], v[3], v[0], v[2], p[0], v[0], v[0])
+	case 15: // labelled break/continue in nested range loops, map writes
+		return fmt.Sprintf(`%s(rows [][]int) map[int]int {
+	%s := map[int]int{}
+outer:
+	for %s, row := range rows {
+		for _, %s := range row {
+			if %s < 0 {
+				continue outer
+			}
+			if %s > %d {
+				break outer
+			}
+			%s[%s] += %s
+		}
+	}
+	return %s
+}
+`, head, v[0], v[1], v[2], v[2], v[2], p[0]*100, v[0], v[1], v[2], v[0])
 	default: // 13: error handling chain with early returns
 		return fmt.Sprintf(`%s(a, b int) (int, error) {
 	if b == 0 {
